@@ -86,7 +86,14 @@ bool MappedFile::OpenReadOnly() {
     LOG(ERROR) << "attempt to open non-existent file '" << file_path_ << "'.";
     return false;
   }
-  file_.reset(new MappedFileImpl(file_path_, MappedFileImpl::kOpenReadOnly));
+  try {
+    file_.reset(new MappedFileImpl(file_path_, MappedFileImpl::kOpenReadOnly));
+  } catch (const std::exception& ex) {
+    // e.g. a zero-length file left by an interrupted Create() cannot be mapped
+    LOG(ERROR) << "error mapping file '" << file_path_ << "': " << ex.what();
+    file_.reset();
+    return false;
+  }
   size_ = file_->get_size();
   return bool(file_);
 }
